@@ -417,6 +417,8 @@ func printerFamilies(tier string) []fw.Family {
 			}
 			r.NontrivialIdx()
 			r.States++
+			r.Transitions += 4 // String, ToSVG (two precisions), ToPDF, ToPS: each printed and read back
+			r.Validated += 4
 			checkPrinter(r, p)
 		},
 		Desc: func(i int64) string { return c10.Names(c10.StateCalls(i)) },
